@@ -94,15 +94,15 @@ def c_ident(name):
     return re.sub(r"[^A-Za-z0-9]+", "_", name)
 
 # ------------------------------------------------------------------ asn1c runs
-def run_asn1c(asn1c, files, outdir, opts=(), timeout=120, env_extra=None, prefix=()):
+def run_asn1c(asn1c, files, outdir, opts=(), timeout=120, env_extra=None, prefix=(), cwd=None):
     """like bundle.run_asn1c but keeps stdout and stderr apart and reports signals.
     Returns dict(rc, out, err, signal)."""
-    if outdir: os.makedirs(outdir, exist_ok=True)
+    if outdir: os.makedirs(os.path.join(cwd, outdir) if cwd else outdir, exist_ok=True)
     env = dict(os.environ, ASAN_OPTIONS="detect_leaks=0:abort_on_error=0")
     if env_extra: env.update(env_extra)
     cmd = list(prefix) + [asn1c, "-S", os.path.join(build.REPO, "skeletons")] + (["-D", outdir] if outdir else []) + list(opts) + list(files)
     try:
-        p = subprocess.run(cmd, stdout=subprocess.PIPE, stderr=subprocess.PIPE, env=env, timeout=timeout)
+        p = subprocess.run(cmd, stdout=subprocess.PIPE, stderr=subprocess.PIPE, env=env, timeout=timeout, cwd=cwd)
     except subprocess.TimeoutExpired:
         return {"rc": None, "out": "", "err": "TIMEOUT", "signal": "timeout"}
     out = p.stdout.decode("latin1"); err = p.stderr.decode("latin1")
@@ -315,3 +315,17 @@ def split_module(m, rng, nparts):
         lines.append("END")
         out.append((name, "\n".join(lines) + "\n"))
     return out
+
+def read_tree(d):
+    """{relative file name: bytes} of a directory"""
+    out = {}
+    for root, _, files in os.walk(d):
+        for f in files:
+            p = os.path.join(root, f)
+            out[os.path.relpath(p, d)] = open(p, "rb").read()
+    return out
+
+def diff_trees(a, b, only=None):
+    """names of files that differ / exist on one side only (restricted by predicate `only`)"""
+    names = sorted(set(a) | set(b))
+    return [n for n in names if (only is None or only(n)) and a.get(n) != b.get(n)]
